@@ -685,8 +685,23 @@ def _everyday_op():
     )
 
 
-def _history(op, sizes=((1, 25), (8, 25), (16, 25))):
-    return st.one_of(*[st.lists(op, min_size=a, max_size=b) for a, b in sizes])
+def _uninvert_pair():
+    """Put the top plate underneath the base (protected, or unprotected with whatever the switches say), then ask the
+    fsolve-based FK for lengths: its answer stays underneath and FK has to un-invert it."""
+    return st.tuples(_ik_op(kinds=("below",), protect=st.sampled_from([True, True, False])),
+                     _fk_op(kinds=("pose", "in", "high", "one_out"), modes=(0,), reverse=st.just(False))).map(list)
+
+
+def _flatten(chunks):
+    out = []
+    for c in chunks:
+        out.extend(c if isinstance(c, list) else [c])
+    return out[:25]
+
+
+def _history(op, sizes=((1, 25), (8, 25), (16, 25)), pairs=True):
+    elem = st.one_of(*([op] * 12 + [_uninvert_pair()])) if pairs else op
+    return st.one_of(*[st.lists(elem, min_size=a, max_size=b).map(_flatten) for a, b in sizes])
 
 
 _SWITCHES = st.lists(st.sampled_from([0, 1]), min_size=4, max_size=4)
@@ -707,6 +722,7 @@ def _short_ops(draw):
         _fk_op(kinds=("high", "low", "mixed", "uniform", "one_out", "edge"), protect=st.just(False)),
         st.tuples(_ik_op(kinds=("below", "flip", "low", "high", "lateral"), protect=st.just(True)),
                   st.one_of(_validate_op(), _fk_op(kinds=("pose", "in"), modes=(0, 1, None)))).map(list),
+        _uninvert_pair(),
     ))
     ops = first if isinstance(first, list) else [first]
     tail = draw(st.lists(st.one_of(_queries(), _validate_op(), _ik_op(kinds=("in",)), _fk_op(kinds=("pose",))),
@@ -720,7 +736,7 @@ def region_short(case, message):
 
 CLAUSES = [
     Clause("correction_then_queries", check, _cases(_short_ops()), 150, 6000, region=region, shrink_quick=False),
-    Clause("history_everyday_calls", check, _cases(_history(_everyday_op()), fk_modes=(1,)), 100, 4000,
+    Clause("history_everyday_calls", check, _cases(_history(_everyday_op(), pairs=False), fk_modes=(1,)), 100, 4000,
            region=region, shrink_quick=False),
     Clause("history_full_alphabet", check, _cases(_history(_any_op())), 150, 6000, region=region, shrink_quick=False),
 ]
